@@ -58,6 +58,11 @@ def dedicated(rng, thorough):
     for fmt in ([b"%03d"], [b"%02d", b"%d"], [b"0X%02X", b"%d"], [b"0x%02x", b"%03d", b"%d"]):
         vals = [rng.randrange(256) for _ in range(505)]
         out.append(b"$a = " + rng.choice([b",", b", ", b",\n  "]).join(rng.choice(fmt) % v for v in vals) + b" ;")
+    # multi-byte xor with the key held in a variable (xortool guesses it): lengths that are NOT a multiple of the key length
+    for key, ln in ((b"K3y", 803), (b"s3cr3t!", 803), (b"\x10\x20\x30\x40\x55", 1001), (b"ab", 601)):
+        plain = (b"The quick brown fox jumps over the lazy dog and runs away. " * 40)[:ln]
+        ct = bytes(c ^ key[i % len(key)] for i, c in enumerate(plain))
+        out.append(b"$d = " + b",".join(b"%d" % c for c in ct) + b"; for($i=0;$i -lt $d.Length;$i++){$d[$i] = $d[$i] -bxor $k[$i % $k.Length]}")
     items = [b"%d" % rng.randrange(300) for _ in range(520)]
     out.append(b",".join(items))
     out.append(b", ".join(b"0x%02X" % (i % 256) for i in range(510)) + b" -bxor 7")
